@@ -41,6 +41,11 @@ def instances(tier):
     out.append(("axis_angle_2d", {}))
     for i in ((0, 1, 2) if tier == "quick" else AXIS_ANGLE_DECIDED):
         out.append(("axis_angle_3d", {"i": i}))
+    # (via from_vector left one obligation undecided and is not registered)
+    vias = ("compose_before_inplace", "compose_after_inplace", "compose_before", "set_rotation_matrix", "copy_set")
+    for n, via in enumerate(vias):
+        for i in (((n + 1) % 3,) if tier == "quick" else (0, 1, 2)):
+            out.append(("axis_angle_3d", {"i": i, "j": (i + 1) % 3, "via": via}))
     out.append(("quaternion", {}))
     out.append(("quaternion_as_vector", {}))
     for obj in ("PointCloud", "TriMesh", "Image"):
@@ -156,7 +161,36 @@ def axis_angle_3d(F, ob, cfg):
         npproxy.NP.stubs["random.rand"] = lambda n: rnd.copy()
     else:
         F.patch(np.random, "rand", lambda n: rnd.copy())
-    r = Rotation(R, skip_checks=True)
+    via = cfg.get("via")
+    if via is None:
+        r = Rotation(R, skip_checks=True)
+    else:
+        # the rotation under test reaches matrix R through an update of another rotation whose axis and angle
+        # were already asked for: what is reported must describe the CURRENT matrix
+        # (a quarter turn with a mirrored pair of axes: products with it are exact in floats, so the updated
+        # matrix is R to the last bit and the obligations are the ones decided for the plain instances)
+        R0 = np.array([[[0, -1, 0], [1, 0, 0], [0, 0, 1]], [[1, 0, 0], [0, 0, -1], [0, 1, 0]],
+                       [[0, 0, 1], [0, 1, 0], [-1, 0, 0]]][cfg["j"]], dtype=float)
+        first = Rotation(R0, skip_checks=True)
+        first.axis_and_angle_of_rotation()
+        if via == "from_vector":
+            r = first.from_vector(q)
+        elif via == "compose_before_inplace":
+            r = first
+            r.compose_before_inplace(Rotation(R.dot(R0.T), skip_checks=True))
+        elif via == "compose_after_inplace":
+            r = first
+            r.compose_after_inplace(Rotation(R0.T.dot(R), skip_checks=True))
+        elif via == "compose_before":
+            r = first.compose_before(Rotation(R.dot(R0.T), skip_checks=True))
+        elif via == "set_rotation_matrix":
+            r = first
+            r.set_rotation_matrix(R.copy(), skip_checks=True)
+        elif via == "copy_set":
+            r = first.copy()
+            r.set_rotation_matrix(R.copy(), skip_checks=True)
+        ob.true("via.is_rotation", type(r) is Rotation)
+        ob.eq("via.matrix", np.asarray(r.rotation_matrix, dtype=float), R, tol=1e-9)
     axis, ang = r.axis_and_angle_of_rotation()
     ob.true("axis.returned", axis is not None)
     if axis is None:
